@@ -68,6 +68,11 @@ GridTuples(dim) == CASE dim = 1 -> {<<a>> : a \in (IF AllGrids1D THEN AllGrids E
                      [] dim = 2 -> {<<a, b>> : a \in Rep(NRep), b \in Rep(NRep)}
                      [] dim = 3 -> {Rep3[i] : i \in 1..NRep3}
 StrictlyIncreasing(g) == \A i \in 1..Len(g) - 1 : g[i] < g[i + 1]
+\* evenly spaced axis.  On evenly spaced axes Akima's interpolant also reproduces the tensor QUADRATICS (inside the
+\* grid): the segment slopes of a parabola form an arithmetic progression, which the end continuation m_0 = 2 m_1 - m_2
+\* extends, so both weights of a node slope are equal and the slope is the mean of the adjacent segment slopes - the
+\* derivative of the parabola at the node (law AkQuadLaw below checks this on the definition).
+Uniform(g) == \A i \in 1..Len(g) - 2 : g[i + 1] - g[i] = g[i + 2] - g[i + 1]
 
 \* --- polynomials -----------------------------------------------------------------------------------
 \* coefficient k of a polynomial of per-axis degree d in `dim` variables multiplies
@@ -166,6 +171,7 @@ Out(s) == LET inb == InGrid(s, s.X)
               err == ~s.ex /\ ~inb
           IN [err |-> err, inb |-> inb,
               interior |-> \A i \in 1..s.dim : s.pos[i].kd \in {"mid", "q1", "q3"},
+              uni |-> \A i \in 1..s.dim : Uniform(s.g[i]),
               v |-> IF err THEN NaN ELSE Value(s, s.X),
               d |-> IF err THEN <<>> ELSE Deriv(s, s.X),
               w |-> IF err \/ s.cls # "lin" THEN <<>> ELSE Hat(s, s.X),
@@ -324,17 +330,20 @@ Akima(s) ==
         b |-> <<b.v, bp.v>>]
 
 AkHash(e) == SumTo([j \in 1..Len(e) |-> (j * j + 3) * (e[j] + 2)], Len(e))
-\* table: the line 2 x through the nodes, each value moved by e_j in {-1, 0, 1}
-AkMk(gi, dl, e, cell, X) == [fam |-> "akima", gi |-> gi, g |-> AkGrids[gi], dl |-> dl, e |-> e,
-                             T |-> [j \in 1..Len(e) |-> 2 * AkGrids[gi][j] + e[j]], cell |-> cell, X |-> X]
+\* table: the line 2 x (tq = 1: the parabola 2 x + x^2) through the nodes, each value moved by e_j in {-1, 0, 1}
+AkMk(gi, dl, e, tq, cell, X) ==
+    [fam |-> "akima", gi |-> gi, g |-> AkGrids[gi], dl |-> dl, e |-> e, tq |-> tq,
+     T |-> [j \in 1..Len(e) |-> 2 * AkGrids[gi][j] + tq * AkGrids[gi][j] * AkGrids[gi][j] + e[j]], cell |-> cell, X |-> X]
 InitAk == /\ stage = 0
           /\ \E gi \in 1..Len(AkGrids) : \E dl \in AkDeltas(gi) :
-                scen = AkMk(gi, dl, [j \in 1..Len(AkGrids[gi]) |-> 0], 1, 2 * (AkGrids[gi][1] + AkGrids[gi][2]))
+                scen = AkMk(gi, dl, [j \in 1..Len(AkGrids[gi]) |-> 0], 0, 1, 2 * (AkGrids[gi][1] + AkGrids[gi][2]))
           /\ out = Akima(scen)
 ChooseAk == /\ stage = 0 /\ stage' = 1
-            /\ \E e \in [1..Len(scen.g) -> {-1, 0, 1}], cell \in 1..Len(scen.g) - 1, kd \in {"mid", "q1", "q3"} :
-                  /\ AkHash(e) % AkMod = AkRem % AkMod
-                  /\ scen' = AkMk(scen.gi, scen.dl, e, cell, XOf(scen.g, 4, [kd |-> kd, ix |-> cell]))
+            /\ \E e \in [1..Len(scen.g) -> {-1, 0, 1}], tq \in {0, 1}, cell \in 1..Len(scen.g) - 1,
+                  kd \in {"mid", "q1", "q3"} :
+                  \* the parabola: unperturbed only (the reproduction law), on every grid
+                  /\ IF tq = 1 THEN \A j \in 1..Len(scen.g) : e[j] = 0 ELSE AkHash(e) % AkMod = AkRem % AkMod
+                  /\ scen' = AkMk(scen.gi, scen.dl, e, tq, cell, XOf(scen.g, 4, [kd |-> kd, ix |-> cell]))
             /\ out' = Akima(scen')
 NextAk == ChooseAk
 
@@ -344,6 +353,11 @@ AkLaw == LET n == Len(scen.g)
          IN /\ SumSeq(out.dT) = One
             /\ SumSeq([k \in 1..n |-> Mul(R(scen.g[k]), out.dT[k])]) = Q(scen.X, 4)
             \* an unperturbed table is the line itself
-            /\ (\A j \in 1..n : scen.e[j] = 0) => (out.v = Q(2 * scen.X, 4) /\ out.dx = R(2))
+            /\ (scen.tq = 0 /\ \A j \in 1..n : scen.e[j] = 0) => (out.v = Q(2 * scen.X, 4) /\ out.dx = R(2))
+\* on an evenly spaced grid the parabola is reproduced as well, in every cell (whatever delta_x: equal arguments get
+\* equal weights) - and on the other grids it is not (the claim is not vacuous)
+AkQuadLaw == (scen.tq = 1) =>
+                LET exact == out.v = Q(8 * scen.X + scen.X * scen.X, 16) /\ out.dx = Q(4 + scen.X, 2)
+                IN Uniform(scen.g) => exact
 ExportAk == stage = 1 => PrintT(<<"AK", ToJson([s |-> scen, o |-> out])>>)
 =============================================================================
